@@ -648,6 +648,27 @@ func (e *Exec) zz(name string, args []Value, fn *ssa.Function) Value {
 			panic(assertFail{label})
 		}
 		return nil
+	case "Within", "WithinStr":
+		b := args[1].(*Slice)
+		var sBase Loc
+		var sOff, sLen *Term
+		if name == "Within" {
+			x := args[0].(*Slice)
+			sBase, sOff, sLen = x.Base, x.Off, x.Len
+		} else {
+			x := args[0].(*Str)
+			sBase, sOff, sLen = x.Base, x.Off, x.Len
+		}
+		empty := tc.Eq(sLen, e.c64(0))
+		if sBase.Obj == nil {
+			return empty
+		}
+		same, dec := sameLoc(sBase, b.Base)
+		if !dec || !same {
+			return empty
+		}
+		inside := tc.BAnd(tc.Sle(b.Off, sOff), tc.Sle(tc.Add(sOff, sLen), tc.Add(b.Off, b.Len)))
+		return tc.BOr(empty, inside)
 	case "Reach":
 		label, _ := e.concreteString(args[0].(*Str))
 		e.reached[label] = true
